@@ -55,6 +55,15 @@ def clamp_regions(ctx, rule='A16'):
             ctx.ob(rule, fkey(fn, rule, f'continuous:[{lo},{hi}]:v={v}'), ok, fn.where,
                    f'value {v} with bounds [{lo}, {hi}] is corrected to {want}', f'{out.kind} {out.value}',
                    nontrivial=(v in (lo, hi, lo - 1, hi + 1)))
+            if out.kind == 'return':
+                vals = it.ret_tuple(out.node, _)
+                frac = vals[1] if len(vals) > 1 else None
+                wantf = (want - lo) / (hi - lo)
+                ctx.ob(rule, fkey(fn, rule, f'fraction:[{lo},{hi}]:v={v}'),
+                       frac is not None and abs(frac - wantf) < 1e-12, fn.where,
+                       f'the relative position returned for value {v} is that of the *corrected* value '
+                       f'({wantf:.3f}, always inside [0, 1]) - it is what linked variables are set from',
+                       f'fraction {frac}', nontrivial=(v < lo or v > hi))
     # the constructor establishes the orderings the regions rely on
     init = ctx.fn(f'{NODES}:DesignVariableNode.__init__')
     txt = ' '.join(norm(s) for s in init.body)
